@@ -3,13 +3,14 @@ import EmbitModel.Driver.Hash
 import EmbitModel.Driver.Sighash
 import EmbitModel.Driver.Psbt
 import EmbitModel.Driver.Bip39
+import EmbitModel.Driver.Miniscript
 /-
   Native line-protocol driver over the executable model and spec (no Mathlib reachable from here).
   One request per line `op arg…`; one answer per line: `ok …`, `none` (model rejects), or `bad-op`.
 -/
 open Embit.Driver
 
-def handlers : List (String → List String → Option String) := [handleTx, handleHash, handleSighash, handlePsbt, handleBip39]
+def handlers : List (String → List String → Option String) := [handleTx, handleHash, handleSighash, handlePsbt, handleBip39, handleMiniscript]
 
 def dispatch (line : String) : String :=
   match (line.splitOn " ").filter (· ≠ "") with
